@@ -88,6 +88,9 @@ def type_of(v, reg=None):
     if type(v).__name__ == "SDictV":
         from .dicts import TDict
         return TDict()
+    if type(v).__name__ == "SFSet":
+        from .sets import TFSet
+        return TFSet(v.elem)
     if type(v).__name__ == "SChar":
         from .chars import TChar
         return TChar()
